@@ -212,14 +212,14 @@ Proof.
       * right. exists q. auto.
 Qed.
 
-Definition recs_of_node (n : node) : list orec :=
-  match n with NTarget t => map (rec_of t) (all_outputs t) | NAlias _ _ => [] end.
+Definition recs_of_node (rootc : list str) (n : node) : list orec :=
+  match n with NTarget t => map (rec_of rootc t) (all_outputs t) | NAlias _ _ => [] end.
 
-Lemma records_eq g : records g = flat_map recs_of_node g.
+Lemma records_eq rootc g : records rootc g = flat_map (recs_of_node rootc) g.
 Proof. reflexivity. Qed.
 
-Lemma in_records g r :
-  In r (records g) <-> exists t o, In (NTarget t) g /\ In o (all_outputs t) /\ r = rec_of t o.
+Lemma in_records rootc g r :
+  In r (records rootc g) <-> exists t o, In (NTarget t) g /\ In o (all_outputs t) /\ r = rec_of rootc t o.
 Proof.
   unfold records. rewrite in_flat_map. split.
   - intros [nd [Hnd H]]. destruct nd as [t|l a]; [|destruct H].
@@ -229,15 +229,15 @@ Qed.
 
 (* a pair of records of the pair loops comes from two outputs of one target, or from two
    targets at different positions of the node list *)
-Lemma pairs_records g r1 r2 : NoDup (labels g) -> In (r1, r2) (pairs (records g)) ->
+Lemma pairs_records rootc g r1 r2 : NoDup (labels g) -> In (r1, r2) (pairs (records rootc g)) ->
   (exists t o1 o2, In (NTarget t) g /\ In (o1, o2) (pairs (all_outputs t)) /\
-                   r1 = rec_of t o1 /\ r2 = rec_of t o2) \/
+                   r1 = rec_of rootc t o1 /\ r2 = rec_of rootc t o2) \/
   (exists t1 t2 o1 o2, In (NTarget t1) g /\ In (NTarget t2) g /\ t_label t1 <> t_label t2 /\
                        In o1 (all_outputs t1) /\ In o2 (all_outputs t2) /\
-                       r1 = rec_of t1 o1 /\ r2 = rec_of t2 o2).
+                       r1 = rec_of rootc t1 o1 /\ r2 = rec_of rootc t2 o2).
 Proof.
   induction g as [|nd g IH]; intros Hnd H; [destruct H|].
-  change (records (nd :: g)) with (recs_of_node nd ++ records g) in H.
+  change (records rootc (nd :: g)) with (recs_of_node rootc nd ++ records rootc g) in H.
   inversion Hnd as [|? ? Hx Hr]; subst.
   apply pairs_app_in in H as [H|[[H1 H2]|H]].
   - left. destruct nd as [t|l a]; [|destruct H]. simpl in H.
@@ -255,9 +255,9 @@ Proof.
 Qed.
 
 (* what the pair loops decide, exactly (no guard beyond a well-formed node map): *)
-Theorem conflict_exact g : NoDup (labels g) -> no_dangling g ->
-  (has_conflict g = true <->
-   exists r1 r2, In (r1, r2) (pairs (records g)) /\
+Theorem conflict_exact rootc g : NoDup (labels g) -> no_dangling g ->
+  (has_conflict rootc g = true <->
+   exists r1 r2, In (r1, r2) (pairs (records rootc g)) /\
                  ~ ordered_spec g (r_owner r1) (r_owner r2) /\ keys_clash r1 r2 = true).
 Proof.
   intros Hnd Hdg. unfold has_conflict. rewrite existsb_exists. split.
@@ -270,8 +270,9 @@ Proof.
     apply (ordered_iff g _ _ Hnd Hdg) in E. contradiction.
 Qed.
 
-(* string tests of the code vs places, for outputs whose spelling never climbs above the
-   workspace root (guard G2); the root itself, written ".", is covered *)
+(* string tests of the code vs places, for outputs inside the workspace (what the boundary test
+   of CheckTargetConstraints establishes), however they are spelled; the root itself, written
+   ".", is covered *)
 
 Lemma is_prefix_app rootc a b : is_prefix (rootc ++ a) (rootc ++ b) <-> is_prefix a b.
 Proof.
@@ -280,37 +281,33 @@ Proof.
   - rewrite H. apply app_assoc.
 Qed.
 
-Lemma plain_facts rootc t o :
-  Forall plain_comp rootc -> is_abs (lpkg (t_label t)) = false -> is_abs (o_id o) = false ->
-  plain_output t o ->
+(* the key of an output inside the workspace is its location below the root *)
+Lemma canon_facts rootc t o :
+  Forall plain_comp rootc -> output_ok rootc t o ->
   exists r, Forall plain_comp r /\
-            clean_output_path (lpkg (t_label t)) (o_id o) = render_rel r /\
+            clean_output_path rootc (lpkg (t_label t)) (o_id o) = render_rel r /\
             location rootc (lpkg (t_label t)) (o_id o) = rootc ++ r.
 Proof.
-  intros Hr Hp Hi Hpl. unfold plain_output in Hpl.
-  destruct (resolve_from [] (split_slash (lpkg (t_label t)) ++ split_slash (o_id o))) as [r|] eqn:Hres;
-    [|contradiction].
-  exists r. split.
-  - exact (resolve_from_split2_plain _ _ _ Hres).
-  - split.
-    + apply clean_output_path_rel; auto.
-    + apply location_plain; auto.
+  intros Hr [_ [r Hl]]. exists r. split.
+  - pose proof (location_plain_comps rootc (lpkg (t_label t)) (o_id o) Hr) as Hp.
+    rewrite Hl in Hp. apply Forall_app in Hp. exact (proj2 Hp).
+  - split; [apply clean_output_path_within; exact Hl | exact Hl].
 Qed.
 
 Lemma clash_iff_overlap rootc t1 o1 t2 o2 :
   Forall plain_comp rootc ->
-  is_abs (lpkg (t_label t1)) = false -> is_abs (lpkg (t_label t2)) = false ->
-  (o_type o1 <> ODocker -> is_abs (o_id o1) = false /\ plain_output t1 o1) ->
-  (o_type o2 <> ODocker -> is_abs (o_id o2) = false /\ plain_output t2 o2) ->
-  (keys_clash (rec_of t1 o1) (rec_of t2 o2) = true <->
+  (o_type o1 <> ODocker -> output_ok rootc t1 o1) ->
+  (o_type o2 <> ODocker -> output_ok rootc t2 o2) ->
+  (keys_clash (rec_of rootc t1 o1) (rec_of rootc t2 o2) = true <->
    overlap (place_of rootc t1 o1) (place_of rootc t2 o2)).
 Proof.
-  intros Hr Hp1 Hp2 H1 H2. unfold keys_clash, place_of, rec_of. simpl.
+  intros Hr H1 H2. unfold keys_clash, place_of, rec_of. simpl.
   destruct (o_type o1) eqn:E1, (o_type o2) eqn:E2; simpl;
     try (split; [discriminate | intros []]); try apply str_eqb_eq;
-    (destruct H1 as [Ha1 Hpl1]; [discriminate|]); (destruct H2 as [Ha2 Hpl2]; [discriminate|]);
-    destruct (plain_facts rootc t1 o1 Hr Hp1 Ha1 Hpl1) as [r1 [Hf1 [Hc1 Hl1]]];
-    destruct (plain_facts rootc t2 o2 Hr Hp2 Ha2 Hpl2) as [r2 [Hf2 [Hc2 Hl2]]];
+    (assert (Hok1 : output_ok rootc t1 o1) by (apply H1; discriminate));
+    (assert (Hok2 : output_ok rootc t2 o2) by (apply H2; discriminate));
+    destruct (canon_facts rootc t1 o1 Hr Hok1) as [r1 [Hf1 [Hc1 Hl1]]];
+    destruct (canon_facts rootc t2 o2 Hr Hok2) as [r2 [Hf2 [Hc2 Hl2]]];
     rewrite Hc1, Hc2, Hl1, Hl2.
   - (* file, file *) rewrite str_eqb_eq. split.
     + intro H. apply render_rel_inj in H; auto. congruence.
@@ -329,56 +326,71 @@ Qed.
 Lemma ordered_spec_sym g a b : ordered_spec g a b -> ordered_spec g b a.
 Proof. unfold ordered_spec. tauto. Qed.
 
-Lemma rec_of_owner t o : r_owner (rec_of t o) = t_label t.
+Lemma rec_of_owner rootc t o : r_owner (rec_of rootc t o) = t_label t.
 Proof. reflexivity. Qed.
 
-(* guarded equivalence for the conflict clause *)
+(* the conflict clause, first half, UNGUARDED beyond outputs inside the workspace: when the pair
+   loops find nothing, no two distinct unordered targets have overlapping outputs *)
+Theorem no_conflict_sound rootc g :
+  NoDup (labels g) -> no_dangling g -> Forall plain_comp rootc -> outputs_ok rootc g ->
+  has_conflict rootc g = false -> no_conflict rootc g.
+Proof.
+  intros Hnd Hdg Hr Hout Hc t1 t2 o1 o2 Ht1 Ht2 Hne Ho1 Ho2 Hov.
+  assert (Hin1 : In (rec_of rootc t1 o1) (records rootc g)) by (apply in_records; exists t1, o1; auto).
+  assert (Hin2 : In (rec_of rootc t2 o2) (records rootc g)) by (apply in_records; exists t2, o2; auto).
+  assert (Hrne : rec_of rootc t1 o1 <> rec_of rootc t2 o2).
+  { intro E. apply Hne. apply (f_equal r_owner) in E. exact E. }
+  unfold has_conflict in Hc. rewrite existsb_false in Hc.
+  destruct (pairs_either _ _ _ Hin1 Hin2 Hrne) as [Hp|Hp]; specialize (Hc _ Hp); simpl in Hc;
+    unfold conflict_pair in Hc; apply andb_false_iff in Hc as [Hc|Hc].
+  - apply negb_false_iff in Hc. apply (ordered_iff g _ _ Hnd Hdg) in Hc. exact Hc.
+  - exfalso. apply (clash_iff_overlap rootc t1 o1 t2 o2 Hr (Hout _ _ Ht1 Ho1) (Hout _ _ Ht2 Ho2)) in Hov.
+    congruence.
+  - apply negb_false_iff in Hc. apply (ordered_iff g _ _ Hnd Hdg) in Hc.
+    apply ordered_spec_sym. exact Hc.
+  - exfalso. apply overlap_sym in Hov.
+    apply (clash_iff_overlap rootc t2 o2 t1 o1 Hr (Hout _ _ Ht2 Ho2) (Hout _ _ Ht1 Ho1)) in Hov.
+    congruence.
+Qed.
+
+(* second half, under G3 (no target overlaps itself): what the pair loops find is a conflict
+   between two distinct unordered targets *)
+Theorem no_conflict_complete rootc g :
+  NoDup (labels g) -> no_dangling g -> Forall plain_comp rootc -> outputs_ok rootc g ->
+  no_self_overlap rootc g ->
+  no_conflict rootc g -> has_conflict rootc g = false.
+Proof.
+  intros Hnd Hdg Hr Hout Hself Hspec.
+  destruct (has_conflict rootc g) eqn:E; [|reflexivity]. exfalso.
+  apply (conflict_exact rootc g Hnd Hdg) in E as [r1 [r2 [Hin [Hno Hk]]]].
+  destruct (pairs_records rootc g r1 r2 Hnd Hin) as
+    [[t [o1 [o2 [Ht [Hp [-> ->]]]]]]|[t1 [t2 [o1 [o2 [Ht1 [Ht2 [Hne [Ho1 [Ho2 [-> ->]]]]]]]]]]].
+  - destruct (in_pairs_lr _ _ _ Hp) as [Ho1 Ho2].
+    apply (clash_iff_overlap rootc t o1 t o2 Hr (Hout _ _ Ht Ho1) (Hout _ _ Ht Ho2)) in Hk.
+    exact (Hself t o1 o2 Ht Hp Hk).
+  - apply (clash_iff_overlap rootc t1 o1 t2 o2 Hr (Hout _ _ Ht1 Ho1) (Hout _ _ Ht2 Ho2)) in Hk.
+    apply Hno. rewrite !rec_of_owner. eapply Hspec; eassumption.
+Qed.
+
+(* guarded equivalence for the conflict clause: every path output inside the workspace (the
+   boundary test of CheckTargetConstraints; no condition on how it is spelled) and G3 *)
 Theorem conflict_iff_partial rootc g :
   NoDup (labels g) -> no_dangling g -> Forall plain_comp rootc ->
-  rel_pkgs g -> rel_outputs g -> plain_outputs g -> no_self_overlap rootc g ->
-  (has_conflict g = false <-> no_conflict rootc g).
+  outputs_ok rootc g -> no_self_overlap rootc g ->
+  (has_conflict rootc g = false <-> no_conflict rootc g).
 Proof.
-  intros Hnd Hdg Hr Hpk Hro Hpl Hself.
-  assert (Hside : forall t o, In (NTarget t) g -> In o (all_outputs t) ->
-                   o_type o <> ODocker -> is_abs (o_id o) = false /\ plain_output t o).
-  { intros t o Ht Ho Hk. split; [eapply Hro | eapply Hpl]; eassumption. }
-  split.
-  - intros Hc t1 t2 o1 o2 Ht1 Ht2 Hne Ho1 Ho2 Hov.
-    assert (Hin1 : In (rec_of t1 o1) (records g)) by (apply in_records; exists t1, o1; auto).
-    assert (Hin2 : In (rec_of t2 o2) (records g)) by (apply in_records; exists t2, o2; auto).
-    assert (Hrne : rec_of t1 o1 <> rec_of t2 o2).
-    { intro E. apply Hne. apply (f_equal r_owner) in E. exact E. }
-    unfold has_conflict in Hc. rewrite existsb_false in Hc.
-    destruct (pairs_either _ _ _ Hin1 Hin2 Hrne) as [Hp|Hp]; specialize (Hc _ Hp); simpl in Hc;
-      unfold conflict_pair in Hc; apply andb_false_iff in Hc as [Hc|Hc].
-    + apply negb_false_iff in Hc. apply (ordered_iff g _ _ Hnd Hdg) in Hc. exact Hc.
-    + exfalso. apply (clash_iff_overlap rootc t1 o1 t2 o2 Hr (Hpk _ Ht1) (Hpk _ Ht2)
-                        (Hside _ _ Ht1 Ho1) (Hside _ _ Ht2 Ho2)) in Hov. congruence.
-    + apply negb_false_iff in Hc. apply (ordered_iff g _ _ Hnd Hdg) in Hc.
-      apply ordered_spec_sym. exact Hc.
-    + exfalso. apply overlap_sym in Hov.
-      apply (clash_iff_overlap rootc t2 o2 t1 o1 Hr (Hpk _ Ht2) (Hpk _ Ht1)
-               (Hside _ _ Ht2 Ho2) (Hside _ _ Ht1 Ho1)) in Hov. congruence.
-  - intro Hspec. destruct (has_conflict g) eqn:E; [|reflexivity]. exfalso.
-    apply (conflict_exact g Hnd Hdg) in E as [r1 [r2 [Hin [Hno Hk]]]].
-    destruct (pairs_records g r1 r2 Hnd Hin) as
-      [[t [o1 [o2 [Ht [Hp [-> ->]]]]]]|[t1 [t2 [o1 [o2 [Ht1 [Ht2 [Hne [Ho1 [Ho2 [-> ->]]]]]]]]]]].
-    + destruct (in_pairs_lr _ _ _ Hp) as [Ho1 Ho2].
-      apply (clash_iff_overlap rootc t o1 t o2 Hr (Hpk _ Ht) (Hpk _ Ht)
-               (Hside _ _ Ht Ho1) (Hside _ _ Ht Ho2)) in Hk.
-      exact (Hself t o1 o2 Ht Hp Hk).
-    + apply (clash_iff_overlap rootc t1 o1 t2 o2 Hr (Hpk _ Ht1) (Hpk _ Ht2)
-               (Hside _ _ Ht1 Ho1) (Hside _ _ Ht2 Ho2)) in Hk.
-      apply Hno. rewrite !rec_of_owner. eapply Hspec; eassumption.
+  intros Hnd Hdg Hr Hout Hself. split.
+  - apply no_conflict_sound; assumption.
+  - apply no_conflict_complete; assumption.
 Qed.
 
 (* ------------------------------------------------------------------ assembling the verdict *)
 Lemma validate_accept rootc g : validate rootc g = Accept <-> classes rootc g = [].
 Proof. unfold validate. destruct (classes rootc g); split; intro H; try reflexivity; discriminate. Qed.
 
-Lemma graph_classes_nil g :
-  graph_classes g = [] <->
-  has_missing g = false /\ has_self g = false /\ (exists b, find_cycle g = DfsDone b) /\ has_conflict g = false.
+Lemma graph_classes_nil rootc g :
+  graph_classes rootc g = [] <->
+  has_missing g = false /\ has_self g = false /\ (exists b, find_cycle g = DfsDone b) /\ has_conflict rootc g = false.
 Proof.
   unfold graph_classes, edge_classes.
   destruct (has_missing g), (has_self g); simpl;
@@ -396,7 +408,7 @@ Proof. unfold constraint_classes. rewrite !app_nil_iff, !flag_nil. tauto. Qed.
 
 Lemma classes_nil rootc g :
   classes rootc g = [] <->
-  has_dup (labels g) = false /\ graph_classes g = [] /\ constraint_classes rootc g = [].
+  has_dup (labels g) = false /\ graph_classes rootc g = [] /\ constraint_classes rootc g = [].
 Proof.
   unfold classes. destruct (has_dup (labels g)).
   - split; [discriminate | intros [H _]; discriminate].
@@ -412,38 +424,56 @@ Proof.
   rewrite dup_iff, missing_iff. pose proof (cycle_iff g) as C. tauto.
 Qed.
 
+(* C11, first half, UNGUARDED: what grog accepts is free of every listed defect.  (No condition
+   on how outputs are spelled: conflicts are decided on the workspace-relative form of the place
+   an output denotes; outputs outside the workspace are rejected by the boundary test.) *)
+Theorem accept_sound rootc g :
+  clean_root rootc -> validate rootc g = Accept -> defect_free rootc g.
+Proof.
+  intros [_ Hr].
+  rewrite validate_accept, classes_nil, graph_classes_nil, constraint_classes_nil.
+  unfold defect_free.
+  intros [Hd [[Hm [Hs [Hc Hx]]] [Hi [Ho [Ht Hb]]]]].
+  apply dup_iff in Hd. apply missing_iff in Hm.
+  assert (Hac : acyclic g) by (apply cycle_iff; auto).
+  assert (Hout : outputs_ok rootc g) by (apply (outputs_iff rootc g Hr); exact Ho).
+  split; [exact Hd|]. split; [exact Hm|]. split; [exact Hac|].
+  split; [apply (no_conflict_sound rootc g Hd Hm Hr Hout); exact Hx|].
+  split; [apply inputs_iff; exact Hi|]. split; [exact Hout|].
+  split; [apply test_nocmd_iff; exact Ht | apply (deprules_iff g Hd Hac); exact Hb].
+Qed.
+
+(* second half, under (G3) no target declares two overlapping outputs of its own *)
+Theorem defect_free_accepted rootc g :
+  clean_root rootc -> no_self_overlap rootc g ->
+  defect_free rootc g -> validate rootc g = Accept.
+Proof.
+  intros [_ Hr] G3.
+  rewrite validate_accept, classes_nil, graph_classes_nil, constraint_classes_nil.
+  unfold defect_free.
+  intros [Hd [Hm [Hac [Hx [Hi [Hout [Ht Hb]]]]]]].
+  apply cycle_iff in Hac as Hcyc. destruct Hcyc as [Hs Hc].
+  split; [apply dup_iff; exact Hd|]. split.
+  - split; [apply missing_iff; exact Hm|]. split; [exact Hs|]. split; [exact Hc|].
+    apply (no_conflict_complete rootc g Hd Hm Hr Hout G3). exact Hx.
+  - split; [apply inputs_iff; exact Hi|].
+    split; [apply (outputs_iff rootc g Hr); exact Hout|].
+    split; [apply test_nocmd_iff; exact Ht | apply (deprules_iff g Hd Hac); exact Hb].
+Qed.
+
 (* C11, guarded: what grog accepts is exactly what is free of the listed defects, provided
-   (G2) no path output, read from the workspace root, climbs above the root on the way,
    (G3) no target declares two overlapping outputs of its own.
-   The root is a clean absolute path, package paths are relative.  (The former guard G1 --
-   directory outputs inside the workspace -- is gone: the code checks them; the former second
-   half of G2 -- no output IS the root -- is gone: pathWithin knows ".".) *)
+   The root is a clean absolute path.  (The former guard G1 -- directory outputs inside the
+   workspace -- is gone: the code checks them; the former guard G2 -- no output spelling climbs
+   above the root -- is gone: conflicts are decided on the form the boundary test judges; with
+   it went the side condition that package paths are relative.) *)
 Theorem sound_complete_partial rootc g :
-  clean_root rootc -> rel_pkgs g ->
-  plain_outputs g -> no_self_overlap rootc g ->
+  clean_root rootc -> no_self_overlap rootc g ->
   (validate rootc g = Accept <-> defect_free rootc g).
 Proof.
-  intros [_ Hr] Hpk G2 G3.
-  rewrite validate_accept, classes_nil, graph_classes_nil, constraint_classes_nil.
-  unfold defect_free. split.
-  - intros [Hd [[Hm [Hs [Hc Hx]]] [Hi [Ho [Ht Hb]]]]].
-    apply dup_iff in Hd. apply missing_iff in Hm.
-    assert (Hac : acyclic g) by (apply cycle_iff; auto).
-    assert (Hout : outputs_ok rootc g) by (apply (outputs_iff rootc g Hr); exact Ho).
-    assert (Hro : rel_outputs g) by (intros t o H1 H2 H3; apply (Hout t o H1 H2 H3)).
-    split; [exact Hd|]. split; [exact Hm|]. split; [exact Hac|].
-    split; [apply (conflict_iff_partial rootc g Hd Hm Hr Hpk Hro G2 G3); exact Hx|].
-    split; [apply inputs_iff; exact Hi|]. split; [exact Hout|].
-    split; [apply test_nocmd_iff; exact Ht | apply (deprules_iff g Hd Hac); exact Hb].
-  - intros [Hd [Hm [Hac [Hx [Hi [Hout [Ht Hb]]]]]]].
-    assert (Hro : rel_outputs g) by (intros t o H1 H2 H3; apply (Hout t o H1 H2 H3)).
-    apply cycle_iff in Hac as Hcyc. destruct Hcyc as [Hs Hc].
-    split; [apply dup_iff; exact Hd|]. split.
-    + split; [apply missing_iff; exact Hm|]. split; [exact Hs|]. split; [exact Hc|].
-      apply (conflict_iff_partial rootc g Hd Hm Hr Hpk Hro G2 G3). exact Hx.
-    + split; [apply inputs_iff; exact Hi|].
-      split; [apply (outputs_iff rootc g Hr); exact Hout|].
-      split; [apply test_nocmd_iff; exact Ht | apply (deprules_iff g Hd Hac); exact Hb].
+  intros Hr G3. split.
+  - apply accept_sound; exact Hr.
+  - apply defect_free_accepted; assumption.
 Qed.
 
 (* ------------------------------------------------------------------ refutations of the unguarded statement *)
@@ -499,7 +529,8 @@ Proof. split; [discriminate | repeat constructor; apply plain_compb_true; reflex
 Definition g_dir_escape : nodes := [NTarget (tgt "a" [mkOut ODir (lit "../../outside")] "")].
 (* F2: one target, directory output + bin output inside it: no listed defect, rejected *)
 Definition g_same_target : nodes := [NTarget (tgt "a" [mkOut ODir (lit "dist")] "dist/app")].
-(* F3: two unordered targets write the file p1/a; one spells it by leaving and re-entering the workspace *)
+(* former F3 (repaired): two unordered targets write the file p1/a; one spells it by leaving and
+   re-entering the workspace *)
 Definition g_reentrant : nodes :=
   [NTarget (tgt "a" [mkOut OFile (lit "a")] ""); NTarget (tgt "b" [mkOut OFile (lit "../../ws/p1/a")] "")].
 (* former F4 (repaired): a directory output that is the workspace root next to an unordered writer inside it *)
@@ -543,18 +574,8 @@ Qed.
 Definition only_files (g : nodes) : Prop :=
   forall t o, In (NTarget t) g -> In o (all_outputs t) -> o_type o = OFile.
 
-Theorem reentrant_refuted :
-  exists rootc g, clean_root rootc /\ rel_pkgs g /\ validate rootc g = Accept /\
-                  outputs_ok rootc g /\ only_files g /\ ~ no_conflict rootc g.
+Lemma g_reentrant_conflict : ~ no_conflict root g_reentrant.
 Proof.
-  exists root, g_reentrant. split; [exact root_clean|].
-  split. { intros t [E|[E|[]]]; inversion E; subst; reflexivity. }
-  split; [vm_compute; reflexivity|].
-  split.
-  { intros t o [E|[E|[]]] Ho _; inversion E; subst; destruct Ho as [<-|[]]; (split; [reflexivity|]);
-      exists [lit "p1"; lit "a"]; vm_compute; reflexivity. }
-  split.
-  { intros t o [E|[E|[]]] Ho; inversion E; subst; destruct Ho as [<-|[]]; reflexivity. }
   intro H.
   specialize (H (tgt "a" [mkOut OFile (lit "a")] "") (tgt "b" [mkOut OFile (lit "../../ws/p1/a")] "")
                 (mkOut OFile (lit "a")) (mkOut OFile (lit "../../ws/p1/a"))
@@ -566,6 +587,29 @@ Proof.
   - vm_compute. reflexivity.
   - revert Hr. apply two_no_reach; reflexivity.
   - revert Hr. apply two_no_reach; reflexivity.
+Qed.
+
+(* the former witness of F3 -- file outputs only, every one inside the workspace, no target
+   overlapping itself, one spelling climbing above the root (so the former guard G2 excluded it)
+   -- has a conflict and is rejected for it *)
+Example reentrant_rejected :
+  clean_root root /\ no_self_overlap root g_reentrant /\ ~ plain_outputs g_reentrant /\
+  outputs_ok root g_reentrant /\ only_files g_reentrant /\ ~ no_conflict root g_reentrant /\
+  validate root g_reentrant = Reject [Conflict].
+Proof.
+  split; [exact root_clean|].
+  split. { intros t o1 o2 [E|[E|[]]] Hp; inversion E; subst; vm_compute in Hp; destruct Hp. }
+  split.
+  { intro H.
+    apply (H (tgt "b" [mkOut OFile (lit "../../ws/p1/a")] "") (mkOut OFile (lit "../../ws/p1/a"))
+             (or_intror (or_introl eq_refl)) (or_introl eq_refl)); [discriminate|].
+    vm_compute. reflexivity. }
+  split.
+  { intros t o [E|[E|[]]] Ho _; inversion E; subst; destruct Ho as [<-|[]]; (split; [reflexivity|]);
+      exists [lit "p1"; lit "a"]; vm_compute; reflexivity. }
+  split.
+  { intros t o [E|[E|[]]] Ho; inversion E; subst; destruct Ho as [<-|[]]; reflexivity. }
+  split; [exact g_reentrant_conflict | vm_compute; reflexivity].
 Qed.
 
 Lemma g_root_dir_conflict : ~ no_conflict root g_root_dir.
@@ -601,40 +645,37 @@ Proof.
   split; [exact g_root_dir_conflict | vm_compute; reflexivity].
 Qed.
 
-(* the guards of [sound_complete_partial] are met by an accepted graph with directory and file
-   outputs side by side (dist / dist2) *)
+(* the guard of [sound_complete_partial] is met by an accepted graph with directory and file
+   outputs side by side (dist / dist2), the file spelled by leaving and re-entering the workspace *)
 Definition g_ok : nodes :=
-  [NTarget (tgt "a" [mkOut ODir (lit "dist")] ""); NTarget (tgt "b" [mkOut OFile (lit "dist2/app")] "x")].
+  [NTarget (tgt "a" [mkOut ODir (lit "dist")] "");
+   NTarget (tgt "b" [mkOut OFile (lit "../../ws/p1/dist2/app")] "x")].
 
 Example sound_complete_partial_nonvacuous :
-  clean_root root /\ rel_pkgs g_ok /\ plain_outputs g_ok /\ no_self_overlap root g_ok /\
+  clean_root root /\ no_self_overlap root g_ok /\ ~ plain_outputs g_ok /\
   validate root g_ok = Accept /\ defect_free root g_ok.
 Proof.
-  assert (H1 : rel_pkgs g_ok). { intros t [E|[E|[]]]; inversion E; subst; reflexivity. }
-  assert (H2 : plain_outputs g_ok).
-  { intros t o [E|[E|[]]] Ho _; inversion E; subst.
-    - destruct Ho as [<-|[]]; vm_compute; discriminate.
-    - destruct Ho as [<-|[<-|[]]]; vm_compute; discriminate. }
+  assert (H2 : ~ plain_outputs g_ok).
+  { intro H.
+    apply (H (tgt "b" [mkOut OFile (lit "../../ws/p1/dist2/app")] "x") (mkOut OFile (lit "../../ws/p1/dist2/app"))
+             (or_intror (or_introl eq_refl)) (or_introl eq_refl)); [discriminate|].
+    vm_compute. reflexivity. }
   assert (H3 : no_self_overlap root g_ok).
   { intros t o1 o2 [E|[E|[]]] Hp; inversion E; subst; vm_compute in Hp.
     - destruct Hp.
     - destruct Hp as [Hp|[]]. inversion Hp; subst. vm_compute. intro Hx. discriminate Hx. }
   assert (H4 : validate root g_ok = Accept) by (vm_compute; reflexivity).
-  split; [exact root_clean|]. split; [exact H1|]. split; [exact H2|]. split; [exact H3|].
-  split; [exact H4|]. apply (sound_complete_partial root g_ok root_clean H1 H2 H3). exact H4.
+  split; [exact root_clean|]. split; [exact H3|]. split; [exact H2|].
+  split; [exact H4|]. apply (accept_sound root g_ok root_clean). exact H4.
 Qed.
 
-(* the unguarded equivalence still fails in both directions (F3, F2) *)
+(* the unguarded equivalence still fails, in ONE direction (F2): a graph free of every listed
+   defect is rejected.  The other direction is [accept_sound]. *)
 Theorem sound_complete_refuted :
-  (exists rootc g, clean_root rootc /\ rel_pkgs g /\ validate rootc g = Accept /\ ~ defect_free rootc g) /\
-  (exists rootc g, clean_root rootc /\ rel_pkgs g /\ defect_free rootc g /\ validate rootc g <> Accept).
+  exists rootc g, clean_root rootc /\ rel_pkgs g /\ defect_free rootc g /\ validate rootc g <> Accept.
 Proof.
-  split.
-  - destruct reentrant_refuted as [rootc [g [H1 [H2 [H3 [_ [_ H6]]]]]]]. exists rootc, g.
-    split; [exact H1|]. split; [exact H2|]. split; [exact H3|].
-    intros [_ [_ [_ [Hc _]]]]. exact (H6 Hc).
-  - exists root, g_same_target. split; [exact root_clean|]. split.
-    + intros t [E|[]]. inversion E; subst. reflexivity.
-    + split; [exact g_same_target_defect_free | vm_compute; discriminate].
+  exists root, g_same_target. split; [exact root_clean|]. split.
+  - intros t [E|[]]. inversion E; subst. reflexivity.
+  - split; [exact g_same_target_defect_free | vm_compute; discriminate].
 Qed.
 End Witness.
